@@ -130,7 +130,7 @@ VERIF_MAIN_BEGIN
         tinyjambu_prng_state_p_t *pp = (tinyjambu_prng_state_p_t *)&st;
         spec_drbg_t d;
         unsigned char e[32], *custom;
-        for (unsigned i = 0; i < 12; ++i) st.s[i] = IN_U64(raw[i]);
+        for (unsigned i = 0; i < 12; ++i) st.s[i] = IN_U64_AT(raw, i);
         IN_BYTES(custom, custom, 4);
         r = tinyjambu_prng_init(&st, custom, 4);
         CHECK(!over && ncalls == first + 1, "one system-source call sequence");
